@@ -78,6 +78,23 @@ def evalP [DecidableEq ν] (env : List (ν × Int)) : P ν → Int
 def evalSplit [DecidableEq σ] [DecidableEq ν] (sname : S → σ) (name : Agg × S → ν) (a : A) (rows : List Row) : Int :=
   evalP (reduceOut sname name a rows) (post name a)
 
+/-! ### a whole select list (`Split::from_iter`): one bottom Map and one Reduce for all items, one top-Map column per item, in the order of the list -/
+
+def aggsAll {ι : Type} (items : List (ι × A)) : List (Agg × S) := items.flatMap fun it => aggs it.2
+
+def mapOutAll {ι : Type} [DecidableEq σ] (sname : S → σ) (items : List (ι × A)) (r : Row) : List (σ × Int) :=
+  (aggsAll items).map fun k => (sname k.2, evalS r k.2)
+
+def reduceOutAll {ι : Type} [DecidableEq σ] [DecidableEq ν] (sname : S → σ) (name : Agg × S → ν) (items : List (ι × A)) (rows : List Row) : List (ν × Int) :=
+  (aggsAll items).map fun k => (name k, aggFn k.1 (rows.map fun r => lookup (mapOutAll sname items r) (sname k.2)))
+
+/-- the columns of the top Map: (output name, expression over the Reduce's columns), item by item -/
+def topAll {ι : Type} (name : Agg × S → ν) (items : List (ι × A)) : List (ι × P ν) := items.map fun it => (it.1, post name it.2)
+
+/-- the row the three layers produce for one group: output name ↦ value, in the order of the top Map's columns -/
+def evalSplitAll {ι : Type} [DecidableEq σ] [DecidableEq ν] (sname : S → σ) (name : Agg × S → ν) (items : List (ι × A)) (rows : List Row) : List (ι × Int) :=
+  (topAll name items).map fun c => (c.1, evalP (reduceOutAll sname name items rows) c.2)
+
 /-- output columns of a SELECT: an item without alias is named after its content -/
 def outputNames [DecidableEq ν] (name : A → ν) (items : List (Option ν × A)) : List ν :=
   (items.map fun (al, a) => al.getD (name a)).eraseDups
